@@ -85,7 +85,10 @@ def gen_traces(ctx, table, n):
            and not f["name"].startswith("primitivDelete") and not f["name"].startswith("primitivSetDefault")
            and f["name"] not in ("primitivClearGraph",)]
     failing = [(f["name"], k) for f in fns for k in required_pointer_positions(f)]
-    okfns = [f["name"] for f in fns]
+    # succeeding calls inside a trace share one process: only calls that can be repeated
+    pure = ("primitivGet", "primitivIs", "primitivHas", "primitivApply", "primitivEvaluate", "primitivCreate",
+            "primitivClone", "primitivRepresent")
+    okfns = [f["name"] for f in fns if f["name"].startswith(pure)]
     traces = []
     for _ in range(n):
         nt = r.choice([1, 2, 2, 3])
@@ -298,6 +301,9 @@ def run_(ctx):
             cases.append("null %s %d" % (f["name"], k))
         for k in elem_arrays(f):
             cases.append("elem %s %d" % (f["name"], k))
+    corpus = [l.strip() for l in open(os.path.join(pv.ROOT, "corpus", "capi", "cases.txt")) if l.strip() and not l.startswith("#")]
+    dist["corpus"] = len(corpus)
+    pv.correspondence(ctx, "capi-corpus", corpus, impl, model, nontrivial=lambda c, out: not BAD.match(out), functional=True, impl_env=ASAN_ENV)
     dist["null-probes"] = sum(1 for c in cases if c.startswith("null") and not c.endswith(" -"))
     dist["baseline-calls"] = sum(1 for c in cases if c.endswith(" -"))
     dist["null-element-probes"] = sum(1 for c in cases if c.startswith("elem"))
@@ -394,6 +400,7 @@ def run_(ctx):
         "libstdc++: std::string(nullptr) throws std::logic_error (NULL element of a const char** array)",
         "c/devices/cuda and c/devices/opencl are not part of the build and outside the claim",
         "the array length arguments are not larger than the arrays passed; *size is not larger than the buffer passed",
+        "equality of the EFFECT and the returned data with the C++ call on success is not a theorem (the C++ call is the oracle): it is covered by the twin comparisons above on the sampled boundary values only",
     ]
 
 
